@@ -10,6 +10,10 @@ from hypothesis import strategies as st
 from . import tissue as T
 from .realise import Labelling
 
+class Degenerate(Exception):
+    """The drawn parameters do not yield a usable tissue (counted as a generator rejection, never a violation)."""
+
+
 SNAP_DELTAS = [0.0, 1e-9, -1e-9, 1e-4, -1e-4, math.radians(0.3), -math.radians(0.3)]
 
 
@@ -98,7 +102,7 @@ def build_base(p):
                 continue
             break
         else:
-            raise ValueError("could not build a non-degenerate Voronoi tissue")
+            raise Degenerate("could not build a non-degenerate Voronoi tissue")
         if kind == "moebius":
             cen = t.centre()
             R = max(abs(zz - cen) for zz in t.J.values())
